@@ -159,3 +159,17 @@ def evaluate(text, ctx):
     if n.get("ops", 0) and n.get("skipped", 0) * 5 > n.get("ops", 1):
         classes.append("skipped>20%")
     return Outcome(ok=True, nontrivial=nt, classes=classes)
+
+
+def extra(tier, ctx, seed, deadline):
+    """Thorough tier: structure-aware libFuzzer campaign on the same reference model."""
+    if tier != "thorough" or "fuzz" not in ctx.build_dirs:
+        return {}
+    from .. import fuzz
+    execs, failures, cov, raw = fuzz.campaign(ctx.build_dirs["fuzz"], "fuzz_event", seed, seconds=240, jobs=8,
+                                              seed_inputs=[bytes([1, 2, 0, 17, 33, 5, 0, 0, 8, 3, 10, 1, 9]),
+                                                           bytes([0, 0] + [0, 40, 7] * 20 + [5] * 10)])
+    out = {"evaluations": execs, "coverage": cov, "failures": [(t, "libfuzzer", "oracle failed under libFuzzer") for t in failures]}
+    if raw:
+        cov["raw_crash_artifacts"] = raw
+    return out
